@@ -413,6 +413,25 @@ def search_traces(work, vh, rep, props, jobs, timeout=3300, heap="6g"):
     return results
 
 
+def run_extras(work, vh, rep, seed, tier):
+    """Behaviour beyond the listed properties (spec/Extras.tla): validated the same way, but a
+    disagreement is a note in the evidence, never a violation of the property whose check runs it."""
+    trace = work.path("extras.ndjson")
+    vlib.run_harness(work, vh, ["extras", "-seed", seed, "-n", 80 if tier == "quick" else 2000, "-out", trace])
+    r = vlib.validate_trace(work, "TraceExtras", ["X"], trace, timeout=3000, heap="4g")
+    if r.error is not None:
+        raise Inconclusive("extras validation failed: %s" % r.error)
+    notes = {}
+    for lineno, names in r.fails:
+        for nm in names:
+            notes[nm] = notes.get(nm, 0) + 1
+    for nm, n in sorted(notes.items()):
+        print("NOTE extra behaviour (not a listed property) differs from spec/Extras.tla: %s (%d events)" % (nm, n))
+    rep.add_tlc(r)
+    rep.extra["extras"] = {"events": r.nlines, "differences": notes,
+                           "covers": "move priority queue, First(), MVV-LVA priorities, stable sort, Selection(), WriteLimited tables, books built from lines"}
+
+
 ALLCFG = "morlock,hash,minimax,qsmat,qshash,turochamp,sargon,bernstein"
 
 
@@ -429,10 +448,11 @@ def c03(work, tier, seed):
     else:
         jobs = [("c03a%d" % i, ["-mode", "c03", "-heavy", "-seed", seed * 100 + i, "-n", 150, "-depth", 3, "-cfgs", ALLCFG, "-limit", 60000]) for i in range(12)]
         jobs += [("c03m%d" % i, ["-mode", "c03", "-mates", "-seed", seed * 100 + 50 + i, "-n", 40, "-depth", 5, "-cfgs", "hash,morlock,qshash", "-limit", 250000]) for i in range(12)]
-        jobs += [("c03d%d" % i, ["-mode", "c03", "-mates", "-seed", seed * 100 + 80 + i, "-n", 12, "-depth", 6, "-cfgs", "hash", "-limit", 400000]) for i in range(6)]
+        jobs += [("c03d%d" % i, ["-mode", "c03", "-mates", "-seed", seed * 100 + 80 + i, "-n", 6, "-depth", 6, "-cfgs", "hash", "-limit", 400000]) for i in range(6)]
         jobs += [("c03l%d" % i, ["-mode", "c03", "-ladders", "-n", 10, "-depth", 5, "-cfgs", c, "-limit", 100000]) for i, c in enumerate(["hash", "morlock", "qshash"])]
     search_traces(work, vh, rep, ["C03"], jobs)
     require(rep, ["tree", "search"], "C03")
+    run_extras(work, vh, rep, seed, tier)
     rep.assumptions = ["the tree dump enumerates children with the real PushMove/PopMove (validated independently by C01/C02/C05/C08)",
                        "explored flags are evaluated the way the search evaluates them (predicate obtained at the parent, called after the move is pushed)",
                        "the reference negamax (Search!MM / QMM) is evaluated by TLC with Score.tla's order; it shares no code with the implementation",
